@@ -1,6 +1,9 @@
 mod tables;
 
 pub use tables::CLDR_VERSION;
+#[cfg(unic_locale_verif)]
+#[doc(hidden)]
+pub use tables::{LANG_ONLY, LANG_REGION, LANG_SCRIPT, REGION_ONLY, SCRIPT_ONLY, SCRIPT_REGION};
 
 use crate::subtags;
 
